@@ -122,3 +122,68 @@ Definition feed (wf : wflow) (pt : bool) (res : wres) (sg : nat -> option node)
   | Some q => if pt || memb q (w_srcs wf) then rho res q else sg (nth k (a_ind a) 0)
   | None => None
   end.
+
+(* ------------------------------------------------------------------------ *)
+(* the inlined expression *)
+
+Fixpoint mapM_o {A B} (f : A -> option B) (l : list A) : option (list B) :=
+  match l with
+  | [] => Some []
+  | x :: r => match f x, mapM_o f r with
+              | Some y, Some ys => Some (y :: ys)
+              | _, _ => None
+              end
+  end.
+
+(* the single expression in which every tool input is replaced by the
+   expression of the tool that produced it (sources: their Source object).  Copies
+   of one sub-expression keep the identities of its objects. *)
+Fixpoint inline (wf : wflow) (fuel : nat) (r : nat) : option expr :=
+  if memb r (w_srcs wf) then Some (ESrc r)
+  else match fuel with
+       | 0 => None
+       | S f => match find_app wf r with
+                | None => None
+                | Some a => match mapM_o (inline wf f) (a_ins a) with
+                            | Some es => inst es (a_tx a)
+                            | None => None
+                            end
+                end
+       end.
+
+(* every input of every tool occurs in the tool's expression *)
+Fixpoint tx_uses (k : nat) (t : tx) : bool :=
+  match t with
+  | TIn k' => Nat.eqb k k'
+  | TApp _ f x _ => tx_uses k f || tx_uses k x
+  | _ => false
+  end.
+
+Definition uses_all (wf : wflow) : bool :=
+  forallb (fun a => forallb (fun k => tx_uses k (a_tx a)) (seq 0 (length (a_ins a)))) (w_apps wf).
+
+(* the tree of the inlined expression: the tree of r with the trees of the
+   producers plugged into its input leaves, recursively *)
+Fixpoint utree (wf : wflow) (T : list (nat * lx)) (fuel : nat) (r : nat) : option lx :=
+  match assoc_n r T with
+  | None => None
+  | Some L =>
+      if memb r (w_srcs wf) then Some L
+      else match fuel with
+           | 0 => None
+           | S f =>
+               match find_app wf r with
+               | None => None
+               | Some a =>
+                   Some (lsubst (fun n =>
+                     match find (fun q => negb (memb q (w_srcs wf)) &&
+                                          match assoc_n q T with
+                                          | Some Lq => Nat.eqb (lnode Lq) n
+                                          | None => false
+                                          end) (a_ins a) with
+                     | Some q => utree wf T f q
+                     | None => None
+                     end) L)
+               end
+           end
+  end.
